@@ -3,6 +3,7 @@ package symex
 import (
 	"crypto/sha256"
 	"go/types"
+	"regexp"
 	"strconv"
 	"strings"
 	"sync"
@@ -131,6 +132,38 @@ func init() {
 	// engine is trusted").  An un-overridden matching call is havocked => inconclusive.
 	I["regexp.MustCompile"] = func(m *Machine, fn *ssa.Function, args []Value) Value {
 		return m.newOpaqueObj("regexp", strArg(args[0]))
+	}
+	// (*Regexp).FindAllString on a constant pattern and a constant string is computed with the real engine
+	// (symbolic strings: no model - harnesses override the call, see harness/version/compare.go)
+	I["(*regexp.Regexp).FindAllString"] = func(m *Machine, fn *ssa.Function, args []Value) Value {
+		var pat *smt.Term
+		if p, ok := args[0].(*Ptr); ok && p != nil {
+			if o, ok := p.Cell.V.(*OpaqueObj); ok {
+				pat = o.T
+			}
+		}
+		if o, ok := args[0].(*OpaqueObj); ok {
+			pat = o.T
+		}
+		s := strArg(args[1])
+		n := args[2].(*smt.Term)
+		if pat == nil || !pat.IsConst() || !s.IsConst() || !n.IsConst() {
+			return m.havocCall(fn, args)
+		}
+		re, err := regexp.Compile(pat.S)
+		if err != nil {
+			panic(unsupported("regexp pattern " + pat.S))
+		}
+		res := re.FindAllString(s.S, int(n.SignedVal().Int64()))
+		if res == nil {
+			return (*SliceV)(nil)
+		}
+		e := make([]Value, len(res))
+		for i, r := range res {
+			e[i] = smt.StrC(r)
+		}
+		c := m.newCell(&ArrayV{E: e}, nil, "findall")
+		return &SliceV{Arr: c, Len: len(e), Cap: len(e)}
 	}
 	// regexp.MatchString is supported for the one pattern the harnesses use to state
 	// "this string is what [0-9]+ can match": ^[0-9]+$.
